@@ -109,7 +109,22 @@ func vNextResponse() (string, error) {
 		}
 		return "", errVerifIO
 	}
-	return vNameOf(vIntAt("rname", i, vMaxResps, 0, 2)), nil
+	name := vNameOf(vIntAt("rname", i, vMaxResps, 0, 2))
+	// reference: the answer belongs to the pending request of that name; an answer nobody waits for ends the reader
+	if !vRefFailed {
+		hit := false
+		for k := 0; k < vMaxSends; k++ {
+			if !hit && vRefPending[k] && vSendName[k] == name {
+				hit = true
+				vRefPending[k] = false
+				vWantResp[k] = true
+			}
+		}
+		if !hit {
+			vRefFailed = true
+		}
+	}
+	return name, nil
 }
 
 // ---- environment: delimited I/O is stubbed (its own behaviour is C09) ----
@@ -138,6 +153,9 @@ var vGotResp [vMaxSends]bool
 var vGotOwn [vMaxSends]bool
 var vGotErr [vMaxSends]bool
 var vSendName [vMaxSends]string
+var vRefPending [vMaxSends]bool // reference: accepted and not yet answered
+var vWantResp [vMaxSends]bool   // reference: the client answered this request while it was pending
+var vRefFailed bool             // reference: the client misbehaved (answer without a pending request)
 
 func vNameOf(k int) string {
 	switch k {
@@ -165,6 +183,9 @@ func vDoSend(i int) {
 		}
 	})
 	vSendDone[i] = true
+	if vSendRet[i] == nil {
+		vRefPending[i] = true
+	}
 }
 
 //verif:replace connectrpc.com/conformance/internal.WriteDelimitedMessage vModelWriteDelimited
@@ -184,6 +205,9 @@ func vModelReadDelimited(in io.Reader, msg *conformancev1.ClientCompatResponse, 
 
 // H10b: exactly-once completion for every accepted request.
 func h10b(S, R int) {
+	vSendRet, vSendDone, vCalls = [vMaxSends]error{}, [vMaxSends]bool{}, [vMaxSends]int{}
+	vGotResp, vGotOwn, vGotErr = [vMaxSends]bool{}, [vMaxSends]bool{}, [vMaxSends]bool{}
+	vSendName, vRefPending, vWantResp, vRefFailed = [vMaxSends]string{}, [vMaxSends]bool{}, [vMaxSends]bool{}, false
 	proc := &vProc{}
 	c := &clientProcessRunner{
 		proc:       &process{processController: proc, stdin: &vPipeW{}, stdout: &vPipeR{}},
@@ -223,6 +247,7 @@ func h10b(S, R int) {
 			vAssert(vCalls[i] == 1, "an accepted request's callback fires exactly once")
 			vAssert(vGotResp[i] != vGotErr[i], "the callback carries either a response or an error")
 			vAssert(!vGotResp[i] || vGotOwn[i], "a response is delivered only to the request of the same test name")
+			vAssert(vGotResp[i] == vWantResp[i], "the callback carries the test's own response exactly if the client answered it while it was pending - also for a name that was used and answered before")
 		}
 	}
 	vAssert(len(c.pendingOps) == 0, "nothing stays pending after the reader has ended")
